@@ -150,12 +150,12 @@ let () =
                  let (sops, idx) = sdd_prog ops in
                  let hf = memo_hash prime_U64_LARGEST w2 in
                  match semb_run vt prime_U64_LARGEST hf (nat_of_int 64) sops with
-                 | None -> Buffer.add_string buf "NONE semn=NONE"
+                 | None -> Buffer.add_string buf "NONE semn=*"
                  | Some (mpool, (nn, nr)) ->
                    let at i = List.nth mpool idx.(i) in
                    Buffer.add_string buf (String.concat "," (List.mapi (fun k _ -> string_of_n (semb_hash prime_U64_LARGEST w2 (at k))) ops));
-                   Buffer.add_string buf (Printf.sprintf " semn=%d/%d" (int_of_nat nn) (int_of_nat nr))
-               end else Buffer.add_string buf "- semn=-";
+                   ignore (nn, nr); Buffer.add_string buf " semn=*"
+               end else Buffer.add_string buf "- semn=*";
                let fs = List.map (fun v -> sdd_fields v ops target ng qs ws) vts in
                let col name f = Buffer.add_string buf (" " ^ name ^ "=" ^ String.concat "|" (List.map (function Some x -> f x | None -> "NONE") fs)) in
                col "sh" (fun (a, _, _, _) -> a); col "sn" (fun (_, b, _, _) -> b);
